@@ -587,11 +587,11 @@ func c25DFS(r *vkit.Run, w *c25World, ops []c25Op, prev map[string]c25Diff, maxD
 func TestC25(t *testing.T) {
 	r := vkit.Start(t, "C25", "exploration")
 	defer r.Finish()
-	r.Rule("part 1 (exhaustive): every sequence of applicable operations {create active, create inactive} on an absent slot / {set active, set inactive, change schedule(+offset), delete} on a present slot, over 3 task slots, up to the tier's length (quick 4, thorough 6), each prefix executed once through the real CoordinatingTaskService+Coordinator; part 2 (sampled): random sequences of length ≤ 10 over the extended alphabet (default-status create, combined status+schedule updates, description-only update, update/delete of missing tasks), each followed by NotifyCoordinatorOfExisting on a fresh scheduler. After every operation the recording scheduler's {id -> schedule fingerprint} is compared with the model's {active task -> latest schedule}. non-trivial = some slot is operated on after its creation; distinct = the operation sequence")
+	r.Rule("part 1 (exhaustive): every sequence of applicable operations {create active, create inactive} on an absent slot / {set active, set inactive, change schedule(+offset), delete} on a present slot, over 3 task slots, up to the tier's length (quick 5, thorough 6), each prefix executed once through the real CoordinatingTaskService+Coordinator; part 2 (sampled): random sequences of length ≤ 10 over the extended alphabet (default-status create, combined status+schedule updates, description-only update, update/delete of missing tasks), each followed by NotifyCoordinatorOfExisting on a fresh scheduler. After every operation the recording scheduler's {id -> schedule fingerprint} is compared with the model's {active task -> latest schedule}. non-trivial = some slot is operated on after its creation; distinct = the operation sequence")
 	r.Trust("github.com/influxdata/cron Next (schedule fingerprints)", "in-memory TaskService fake and recording scheduler written by the harness")
 	r.Assume("a scheduler is a map: Schedule(id) replaces, Release(id) removes (what TreeScheduler implements)")
 
-	depth := r.N(4, 6)
+	depth := r.N(5, 6)
 	var count int64
 	var mu sync.Mutex
 	// first-level subtrees in parallel, each with its own world
